@@ -13,6 +13,8 @@ Line protocol (one operation per line, the world has 4 grammar slots 0..3; `-` =
   restrict <s> <names> | rename <s> <cur> <new> | del <s> <n> | addns <s> <n> <ns> | clear <s>
   copy <src> <dst> | pickle <src> <dst>
   setdef <s> <n> <tok> | deldef <s> <n> | defaults <s> <n=tok,..> | reqadd <s> <n> | reqdisc <s> <n>
+  defupd <s> <n=tok,..> | defupdfrom <dst> <src> | defassignfrom <dst> <src> | defclear <s> | defsnap <s> <k> | defrestore <s> <k> <u|a>
+  reqremove <s> <n> | reqclear <s> | requpd <s> <names> | reqsub <s> <names> | reqand <s> <names> | reqassign <s> <names>
   val <s> <n=value,..> | qschema <s> | qjson <s> | qsimple <s> | qmisc <s> <names>
 answer: <status>|<slot0>|<slot1>|<slot2>|<slot3>
   slot: `_` or <S|J>{n=type,..}r{sorted required}d{sorted defaults}t{to_namespaced}f{from_namespaced}
@@ -171,6 +173,16 @@ def parseOp (toks : List String) : Option Op :=
   | ["defaults", s, l] => do some (.defaults (← s.toNat?) (← parseKVs l))
   | ["reqadd", s, n] => do some (.reqadd (← s.toNat?) n)
   | ["reqdisc", s, n] => do some (.reqdisc (← s.toNat?) n)
+  | ["defupd", s, l] => do some (.defupd (← s.toNat?) (← parseKVs l))
+  | ["defupdfrom", d, s] => do some (.defupdfrom (← d.toNat?) (← s.toNat?))
+  | ["defassignfrom", d, s] => do some (.defassignfrom (← d.toNat?) (← s.toNat?))
+  | ["defclear", s] => do some (.defclear (← s.toNat?))
+  | ["reqremove", s, n] => do some (.reqremove (← s.toNat?) n)
+  | ["reqclear", s] => do some (.reqclear (← s.toNat?))
+  | ["requpd", s, l] => do some (.requpd (← s.toNat?) (parseList l))
+  | ["reqsub", s, l] => do some (.reqsub (← s.toNat?) (parseList l))
+  | ["reqand", s, l] => do some (.reqand (← s.toNat?) (parseList l))
+  | ["reqassign", s, l] => do some (.reqassign (← s.toNat?) (parseList l))
   | ["val", s, l] => do
     let kvs ← parseKVs l
     let l' ← kvs.mapM (fun p => (parseVal p.2).map (fun t => (p.1, t)))
@@ -183,14 +195,40 @@ def parseOp (toks : List String) : Option Op :=
 
 def emptyWorld : World := [none, none, none, none]
 
-def answer (w : World) (line : String) : World × String :=
+/-- Driver state: the world and two registers holding snapshots `g.defaults.copy()` (a copy of the
+    dict). `defsnap <s> <k>` fills register k; `defrestore <s> <k> u|a` is `g.defaults.update(snapshot)` /
+    `g.defaults = snapshot`, i.e. the model operations `defupd` / `defaults` with the snapshot's items. -/
+structure DState where
+  w : World
+  snaps : List (Option (List (Name × String)))
+
+def DState.init : DState := ⟨emptyWorld, [none, none]⟩
+
+def answer (st : DState) (line : String) : DState × String :=
   match tokens line with
-  | ["reset"] => (emptyWorld, "ok|" ++ showWorld emptyWorld)
+  | ["reset"] => (DState.init, "ok|" ++ showWorld emptyWorld)
+  | ["defsnap", s, k] =>
+    (match s.toNat?, k.toNat? with
+     | some s, some k =>
+       (match st.w.get s with
+        | some g => ({ st with snaps := st.snaps.set k (some g.defaults) }, "ok|" ++ showWorld st.w)
+        | none => (st, "bad-slot|" ++ showWorld st.w))
+     | _, _ => (st, "bad-op"))
+  | ["defrestore", s, k, mode] =>
+    (match s.toNat?, k.toNat? with
+     | some s, some k =>
+       (match (st.snaps[k]?).join with
+        | some l =>
+          let op := if mode = "u" then Op.defupd s l else Op.defaults s l
+          let (w', out) := step st.w op
+          ({ st with w := w' }, showOut out ++ "|" ++ showWorld w')
+        | none => (st, "bad-slot|" ++ showWorld st.w))
+     | _, _ => (st, "bad-op"))
   | toks =>
     match parseOp toks with
-    | none => (w, "bad-op")
+    | none => (st, "bad-op")
     | some op =>
-      let (w', out) := step w op
-      (w', showOut out ++ "|" ++ showWorld w')
+      let (w', out) := step st.w op
+      ({ st with w := w' }, showOut out ++ "|" ++ showWorld w')
 
-def main : IO Unit := driverLoop answer emptyWorld
+def main : IO Unit := driverLoop answer DState.init
